@@ -12,6 +12,10 @@
  *   lins <r> <idx> <kind> <v>       insert
  *   ldel <r> <idx>
  *   linc <r> <idx> <by>
+ *   tbase <r>                       root "t" := text "a\u00e9", committed (the Doc.tla text base)
+ *   tput <r> <idx> <hex-utf8>       put a string on the character at idx of the text at root "t"
+ *   tdel <r> <idx>                  delete that character
+ *   tspl <r> <idx> <del> <hex-utf8> AMspliceText
  *   merge <r> <s>
  *   obs <r>                         print the observation line of document r
  *   reset                           end of a program: frees every kept result and all documents
@@ -397,6 +401,22 @@ static void cmd_sync(int r, int s) {
   release(s1r); release(s2r);
 }
 
+static const AMobjId *text_of(int r, AMresult **hold) {
+  *hold = AMmapGet(docs[r], AM_ROOT, AMstr("t"), NULL);
+  if (AMresultStatus(*hold) != AM_STATUS_OK || AMresultSize(*hold) == 0) return NULL;
+  AMitem *it = AMresultItem(*hold);
+  if (AMitemValType(it) != AM_VAL_TYPE_OBJ_TYPE) return NULL;
+  const AMobjId *t = AMitemObjId(it);
+  if (AMobjObjType(docs[r], t) != AM_OBJ_TYPE_TEXT) return NULL;
+  return t;
+}
+
+static size_t unhex(const char *h, uint8_t *out, size_t cap) {
+  size_t n = 0;
+  while (h[0] && h[1] && n < cap) { unsigned v; if (sscanf(h, "%2x", &v) != 1) break; out[n++] = (uint8_t)v; h += 2; }
+  return n;
+}
+
 static void obs(int r) {
   printf("O %d heads=", r);
   AMresult *h = AMgetHeads(docs[r]);
@@ -453,6 +473,23 @@ static void obs(int r) {
     }
   }
   release(hold);
+  AMresult *th; const AMobjId *t = text_of(r, &th);
+  if (t) {
+    size_t n = AMobjSize(docs[r], t, NULL);
+    AMresult *tx = AMtext(docs[r], t, NULL); AMbyteSpan s = {0};
+    printf(" t%zu=", n);
+    if (AMresultStatus(tx) == AM_STATUS_OK && AMitemToStr(AMresultItem(tx), &s)) hex(s.src, s.count); else printf("err");
+    release(tx);
+    for (size_t i = 0; i < n; i++) { AMresult *g = AMlistGetAll(docs[r], t, i, NULL); printf("/%zu", AMresultStatus(g) == AM_STATUS_OK ? AMresultSize(g) : 0); release(g); }
+    if (baseheads) {
+      AMitems bh = AMresultItems(baseheads);
+      AMresult *tb = AMtext(docs[r], t, &bh);
+      printf(" tH%zu=", AMobjSize(docs[r], t, &bh));
+      if (AMresultStatus(tb) == AM_STATUS_OK && AMitemToStr(AMresultItem(tb), &s)) hex(s.src, s.count); else printf("err");
+      release(tb);
+    }
+  }
+  release(th);
   printf("\n");
 }
 
@@ -484,6 +521,28 @@ int main(void) {
       commit(r); release(lo);
       if (baseheads) AMresultFree(baseheads);
       baseheads = AMgetHeads(docs[r]); continue;
+    }
+    if (!strcmp(cmd, "tbase")) {
+      sscanf(line, "%*s %d", &r);
+      AMresult *to = AMmapPutObject(docs[r], AM_ROOT, AMstr("t"), AM_OBJ_TYPE_TEXT); check(to, "tbase");
+      const AMobjId *t = AMitemObjId(AMresultItem(to));
+      release(AMspliceText(docs[r], t, 0, 0, AMstr("a\xc3\xa9")));
+      commit(r); release(to);
+      if (baseheads) AMresultFree(baseheads);
+      baseheads = AMgetHeads(docs[r]); continue;
+    }
+    if (cmd[0] == 't' && (!strcmp(cmd, "tput") || !strcmp(cmd, "tdel") || !strcmp(cmd, "tspl"))) {
+      char hx[256] = {0}; uint8_t buf[128]; size_t nb = 0; long long del = 0;
+      AMresult *hold; const AMobjId *t;
+      sscanf(line, "%*s %d %lld", &r, &a);
+      t = text_of(r, &hold);
+      if (!t) { printf("R err\n"); release(hold); continue; }
+      AMresult *p = NULL;
+      if (!strcmp(cmd, "tput")) { sscanf(line, "%*s %*d %*d %255s", hx); nb = unhex(hx, buf, sizeof buf); AMbyteSpan v = {.src = buf, .count = nb}; p = AMlistPutStr(docs[r], t, (size_t)a, false, v); }
+      else if (!strcmp(cmd, "tdel")) p = AMlistDelete(docs[r], t, (size_t)a);
+      else { sscanf(line, "%*s %*d %*d %lld %255s", &del, hx); nb = unhex(hx, buf, sizeof buf); AMbyteSpan v = {.src = buf, .count = nb}; p = AMspliceText(docs[r], t, (size_t)a, (ptrdiff_t)del, v); }
+      printf("R %s\n", AMresultStatus(p) == AM_STATUS_OK ? "ok" : "err"); release(p);
+      release(hold); commit(r); continue;
     }
     if (!strcmp(cmd, "merge")) { sscanf(line, "%*s %d %d", &r, &s); AMresult *m = AMmerge(docs[r], docs[s]); check(m, "merge"); release(m); continue; }
     if (!strcmp(cmd, "obs")) { sscanf(line, "%*s %d", &r); obs(r); continue; }
